@@ -26,6 +26,9 @@ SelCode(r, row, k) ==
   IF k > Len(cfg.sel) THEN ""
   ELSE LET it == cfg.sel[k]  x == Eval(it.e, row) IN
        IF Bad(x) THEN SelCode(r, row, k + 1)                       \* outside the decided domain: any value / NULL / absent
+       \* col != literal over a column the row LACKS is true on the unchanged tree (recorded family NullNotEqualIsTrue); scenarios that use
+       \* such rows only to disturb the evaluator's history leave that row's own value open
+       ELSE IF "neqmissing_open" \in DOMAIN cfg /\ it.e.t = "cmp" /\ it.e.op = "!=" /\ it.e.a.t = "col" /\ ~Has(row, it.e.a.c) THEN SelCode(r, row, k + 1)
        ELSE IF it.al \notin DOMAIN r THEN (IF x.k = "null" /\ "AbsentForNull" \in Dev THEN SelCode(r, row, k + 1) ELSE "column_missing_" \o it.al)
        ELSE IF ~Matches(r[it.al], x) THEN
               IF x.k = "bool" /\ r[it.al].k = "null" /\ ~x.v THEN SelCode(r, row, k + 1)   \* a not-true comparison may surface as NULL
